@@ -274,6 +274,9 @@ def operands(group_and):
         # a field group with a nested parenthesised group: the field applies to every unprefixed clause inside
         (u"g:(x (y OR z))", F(lambda d: grp(u"x" in d[2].split(), u"y" in d[2].split() or u"z" in d[2].split()))),
         (u"g:(NOT (x OR t:alto))", F(lambda d: not (u"x" in d[2].split() or u"alto" in toks(d)))),
+        # two term ranges on the single-valued key field that touch at an indexed term, each excluding it: parse() normalizes, and
+        # the merged range must still exclude d3 (seed C16-4)
+        (u"k:[d1 TO d3}", F(lambda d: u"d1" <= d[0] < u"d3")), (u"k:{d3 TO d5]", F(lambda d: u"d3" < d[0] <= u"d5")),
     ]
 
 
